@@ -152,6 +152,20 @@ func c18ErrCode(err error) int64 {
 	return 10*day + code
 }
 
+// c18InvalidAccepted states the rejection clause of the property directly.
+func c18InvalidAccepted(w *Weekly) string {
+	for d := 0; d < 7; d++ {
+		r := w.days[d]
+		if r == (dayRange{}) {
+			continue
+		}
+		if r.start < 0 || r.end < 0 || r.start >= r.end || r.end > 24*time.Hour || r.start%time.Minute != 0 || r.end%time.Minute != 0 {
+			return "invalid range accepted"
+		}
+	}
+	return ""
+}
+
 var c18DayKeys = []string{"sun", "mon", "tue", "wed", "thu", "fri", "sat"}
 
 // c18RandHalfMs draws a serialised duration in half-milliseconds: mostly
@@ -332,7 +346,9 @@ func TestVerifC18(t *testing.T) {
 				js[d] = &[2]int64{int64(dr.start/time.Millisecond) * 2, int64(dr.end/time.Millisecond) * 2}
 			} else {
 				a, b := c18RandHalfMs(rnd), c18RandHalfMs(rnd)
-				if rnd.Chance(3, 4) && a > b {
+				if rnd.Chance(1, 12) {
+					b = 0
+				} else if rnd.Chance(3, 4) && a > b {
 					a, b = b, a
 				}
 				js[d] = &[2]int64{a, b}
@@ -380,14 +396,8 @@ func TestVerifC18(t *testing.T) {
 					monOK, msg = false, "JSON round trip changed the schedule"
 				}
 				// monitor: nothing invalid was accepted
-				for d := 0; d < 7; d++ {
-					r := w.days[d]
-					if r == (dayRange{}) {
-						continue
-					}
-					if r.start < 0 || r.end < 0 || r.start >= r.end || r.end > 24*time.Hour || r.start%time.Minute != 0 || r.end%time.Minute != 0 {
-						monOK, msg = false, fmt.Sprintf("invalid range accepted: %v-%v", r.start, r.end)
-					}
+				if bad := c18InvalidAccepted(w); bad != "" {
+					monOK, msg = false, bad
 				}
 			}
 			if code == -2 {
@@ -458,6 +468,9 @@ func TestVerifC18(t *testing.T) {
 				w2 := &Weekly{}
 				if uerr := yaml.Unmarshal(b, w2); uerr != nil || w2.days != w.days || w2.location.String() != w.location.String() {
 					monOK, msg = false, "YAML round trip changed the schedule"
+				}
+				if bad := c18InvalidAccepted(w); bad != "" {
+					monOK, msg = false, bad
 				}
 			}
 			c := vfCase{
